@@ -1,6 +1,6 @@
 (* extraction of the element-tree model; run by build_tree.sh inside ocaml/gen (outside the coq/ tree). ExtrOcamlBasic only. *)
 From Coq Require Import Extraction ExtrOcamlBasic.
-From AV Require Import Base.Bytes Base.Outcome Hash.HashModel Spec.SpecOps Tree.Heap Tree.Ops Tree.Script Tree.Script2 Tree.Load Tree.MergeSpec Tree.MergePure Tree.CheckFn.
+From AV Require Import Base.Bytes Base.Outcome Hash.HashModel Spec.SpecOps Tree.Heap Tree.Ops Tree.Script Tree.Script2 Tree.Load Tree.MergeSpec Tree.MergePure Tree.CheckFn Tree.Iter.
 Extraction Language OCaml.
 Extraction "treemodel.ml"
   HashModel.from_bytes HashModel.to_str SpecOps.content_mode SpecOps.et_new
@@ -9,4 +9,5 @@ Extraction "treemodel.ml"
   Script.q_item_name Script.q_is_identifiable Script.q_get_by_path Script.q_refs_to Script.q_get_reference_target
   Script.q_character_data Script.q_insert_range Script.q_check_references
   Load.q_get_by_path_live Load.q_check_references_live MergePure.check_load_buffer
+  Iter.model_elements_dfs Iter.file_elements_dfs Iter.elements_dfs
   CheckFn.check_fn_model.
